@@ -41,6 +41,7 @@ CHECKS["C12"] = {
 SIM_NOTE = "the in-memory network and the synchronous scheduling of handler calls are the harness's model of UDP and of the node's goroutines; join/leave stream clients mirror Gossip.join/leave; known finding F3 (stale delta after an expiry) is excluded by dropping the packet"
 CHECKS["C02"] = {
     "subs": [{"pkg": "sim", "test": "TestKnownF3", "quick": 1, "thorough": 1, "shards": 1},
+             {"pkg": "sim", "test": "TestC02Relay", "quick": 8000, "thorough": 80000, "shards_quick": 4, "shards_thorough": 8},
              {"pkg": "sim", "test": "TestC02", "quick": 8000, "thorough": 200000, "shards_quick": 8, "shards_thorough": 16, "timeout_thorough": 7200}],
     "engine": "SIM",
     "level_text": "Deterministic-simulation property test: generated histories over 2-4 real gossip nodes and a generated network (loss, duplication, reordering, partitions, truncating packet limits); after every step each observer's view is checked against the owner's recorded write history. Exploration only.",
